@@ -4,6 +4,7 @@
 import SV.TxCache.SelProofs
 import SV.TxCache.OrderProofs
 import SV.TxCache.ReachableProofs
+import SV.GenProofs
 namespace SV.Props.C02
 open SV SV.TxCache
 
@@ -63,5 +64,12 @@ theorem constraints_of_every_reachable_pool (U : Bytes → Tx) (cfg : Config) (o
     (∀ t ∈ r.1, s.badGuard t = false) ∧
     (∀ i (hi : i < r.1.length), committed (r.1.take i) (r.1[i]).payer + (r.1[i]).fee ≤ s.balance (r.1[i]).payer) :=
   reachable_selection_constraints U cfg ops hw s q
+
+/-! ### tie by translation: the source's own leaf logic (regenerated into SV/Generated/Funcs.lean on every run) IS the model's -/
+theorem source_loop_exits_are_the_models (gasLimit gasReq acc len maxNum interval : Nat) (since maxDur : Int) :
+    Gen.selectionStops gasLimit gasReq acc len maxNum interval since maxDur =
+      [gasExceeded Variant.current acc gasLimit gasReq, decide (len ≥ maxNum),
+       (decide (len % interval = 0) && decide (since > maxDur))] :=
+  GenProofs.selectionStops_eq gasLimit gasReq acc len maxNum interval since maxDur
 
 end SV.Props.C02
